@@ -287,3 +287,27 @@ def check(run, prog, tier):
     rets = [n for b, i, n in tl.nodes() if n.get("k") == "Return" and n.get("e") is not None]
     okt = bool(rets) and all({"call_out_time", "current_time"} <= names_of(tl, r["e"]) for r in rets)
     run.ob("C10-d", "time_left", okt, "every return of time_left() is relative to both call_out_time and current_time", tl.file, tl.line, "time_left", what="time_left() reports the remaining delay without the wheel position or without the clock")
+
+    # ---- C10-e a count of pending entries moves by one per entry
+    run.rule("C10-e", "call_out.c: a file-scope counter that is incremented where an entry is queued and decremented where entries leave is decremented once per entry: no path decrements it directly and then again through a callee that also decrements it (the sweep that unlinks an entry and then hands it to the helper that throws it away), otherwise the count runs low and whatever it gates (an idle fast path, statistics) misses pending entries. No such counter exists today; the witness catalogue carries the positive example", 0)
+    counters = {}
+    for f in funcs:
+        for b, i, n in f.nodes():
+            if n.get("k") == "Un" and n.get("op") in ("++", "--") and strip(n["e"]).get("k") == "Ref" and strip(n["e"]).get("d") in ("static", "global"):
+                counters.setdefault(strip(n["e"]).get("n"), {"++": [], "--": []})[n["op"]].append((f, b, i, n))
+    for cname, sites in sorted(counters.items()):
+        if not sites["++"] or not sites["--"]:
+            continue
+        if not any(f.name == "new_call_out" for f, b, i, n in sites["++"]):
+            continue
+        decf = {f.name for f, b, i, n in sites["--"]}
+        for f, b, i, n in sites["--"]:
+            run.saw(f)
+            after = cfgq.reach_set(f, b.live_succ(), avoid_blocks=[b.id])
+            twice = [(c.get("fn"), c.get("l")) for b2, i2, c in f.calls() if c.get("fn") in decf and c.get("fn") != f.name and (b2.id in after or (b2.id == b.id and i2 > i))]
+            again = [n2.get("l") for f2, b2, i2, n2 in sites["--"] if f2 is f and n2 is not n and b2.id in after]
+            bad = twice or again
+            run.ob("C10-e", "count:%s:%s:%s" % (cname, f.name, n.get("l") and sites["--"].index((f, b, i, n))), not bad,
+                   "`%s--` in %s(): no second decrement on any path behind it" % (cname, f.name) if not bad else
+                   "`%s--` at line %s is followed on the same path by %s: the entry is counted out twice" % (cname, n.get("l"), ("%s() (line %s), which decrements it too" % twice[0]) if twice else "another `%s--` at line %s" % (cname, again[0])),
+                   f.file, n.get("l"), f.name, what="%s counts one entry out of `%s` twice" % (f.name, cname))
